@@ -58,6 +58,13 @@ pub struct Case {
     /// GraphNode: buffers of every inner input node
     pub inner_bufs: usize,
     pub salt: u32,
+    /// Signal node: the signal ends after this many frames (then equilibrium); None = endless
+    #[serde(default)]
+    pub sig_len: Option<usize>,
+    /// GraphNode: shape of the inner graph. 0 = inputs -> Sum (output); 1 = inputs -> Sum -> Pass (output, with one
+    /// surplus buffer that keeps its content between calls); 2 = inputs -> Sum (output) <-> Delay (feedback through the output node)
+    #[serde(default)]
+    pub inner_kind: u8,
 }
 
 /// contents of buffer `b` of input node `node` in call `call`
@@ -169,12 +176,19 @@ where
 {
     let salt = c.salt;
     let p2 = pulled.clone();
-    let sig = dasp_signal_reg::gen_mut(move || {
-        let k = p2.get();
-        p2.set(k + 1);
-        sig_frame::<C>(k, salt)
-    });
-    let boxed: Box<dyn RegSignal<Frame = [f32; C]>> = Box::new(sig);
+    let boxed: Box<dyn RegSignal<Frame = [f32; C]>> = match c.sig_len {
+        None => Box::new(dasp_signal_reg::gen_mut(move || {
+            let k = p2.get();
+            p2.set(k + 1);
+            sig_frame::<C>(k, salt)
+        })),
+        // a finite signal: its frames, then equilibrium for ever (it reports exhaustion, the node must keep writing)
+        Some(l) => {
+            let frames: Vec<[f32; C]> = (0..l).map(|k| sig_frame::<C>(k, salt)).collect();
+            p2.set(usize::MAX);
+            Box::new(dasp_signal_reg::from_iter(frames))
+        }
+    };
     match w {
         Wrapper::BoxedNode => run_in_graph(BoxedNode::new(boxed), c),
         Wrapper::MutRef => {
@@ -189,13 +203,29 @@ type Inner = Graph<NodeData<BoxedNode>, ()>;
 
 fn mk_inner(c: &Case) -> (Inner, Vec<NodeIndex>, NodeIndex) {
     let mut g: Inner = Graph::with_capacity(0, 0);
-    let out = g.add_node(NodeData::boxed(Sum, vec![Buffer::SILENT; c.inner_bufs]));
+    let sum = g.add_node(NodeData::boxed(Sum, vec![Buffer::SILENT; c.inner_bufs]));
     let mut ins = Vec::new();
     for _ in 0..c.bufs_in.len() {
         let n = g.add_node(NodeData::boxed(Pass, vec![Buffer::SILENT; c.inner_bufs]));
-        g.add_edge(n, out, ());
+        g.add_edge(n, sum, ());
         ins.push(n);
     }
+    let out = match c.inner_kind % 3 {
+        0 => sum,
+        1 => {
+            // the output node does not rewrite all of its buffers: a Pass with one surplus buffer
+            let p = g.add_node(NodeData::boxed(Pass, vec![Buffer::SILENT; c.inner_bufs + 1]));
+            g.add_edge(sum, p, ());
+            p
+        }
+        _ => {
+            // feedback through the output node: its buffers carry state into the next call
+            let d = g.add_node(NodeData::boxed(Delay(vec![rb::Fixed::from(vec![0.0f32; 37]); c.inner_bufs.max(1)]), vec![Buffer::SILENT; c.inner_bufs]));
+            g.add_edge(sum, d, ());
+            g.add_edge(d, sum, ());
+            sum
+        }
+    };
     (g, ins, out)
 }
 
@@ -214,6 +244,8 @@ pub fn check(c0: &Case, st: &mut Stats) -> CheckResult {
     st.class_if(n_in == 0, "zero inputs");
     st.class_if(stateful && c.calls >= 2, "consecutive calls on a stateful node");
     st.class_if(c.wrapper != Wrapper::Bare, "wrapper");
+    st.class_if(c.kind == Kind::Signal && c.sig_len.map_or(false, |l| l < c.calls * LEN), "signal node over a signal that ends during the run");
+    st.class_if(c.kind == Kind::GraphNode && c.inner_kind % 3 != 0, "nested graph whose output node carries state between calls");
     let sentinel = |b: usize| vec![SENTINEL + b as f32; LEN];
     let tol_for = |terms: &[f32]| -> f32 {
         if c.exact {
@@ -343,7 +375,7 @@ pub fn check(c0: &Case, st: &mut Stats) -> CheckResult {
                     if ch < c.sig_channels {
                         for i in 0..LEN {
                             let k = call * LEN + i;
-                            let exp = ((k * 3 + ch * 1000 + c.salt as usize) % 100_003) as f32;
+                            let exp = if c.sig_len.map_or(false, |l| k >= l) { 0.0 } else { ((k * 3 + ch * 1000 + c.salt as usize) % 100_003) as f32 };
                             ensure!(got[i] == exp, "signal node: call {} channel {} sample {} = {}, frame {} channel {} = {}", call, ch, i, got[i], k, ch, exp);
                         }
                     } else {
@@ -353,7 +385,7 @@ pub fn check(c0: &Case, st: &mut Stats) -> CheckResult {
                 Kind::GraphNode => {}
             }
         }
-        if c.kind == Kind::Signal {
+        if c.kind == Kind::Signal && c.sig_len.is_none() {
             ensure!(pulled.get() == (call + 1) * LEN || call + 1 < c.calls, "signal node consumed {} frames in {} calls (one buffer length per call)", pulled.get(), c.calls);
         }
         if let Some(((g, ins, out), p)) = direct.as_mut() {
@@ -368,14 +400,15 @@ pub fn check(c0: &Case, st: &mut Stats) -> CheckResult {
             p.process(g, *out);
             for ch in 0..c.n_out {
                 let got = &outs[call][ch];
-                if ch < c.inner_bufs {
+                if ch < g[*out].buffers.len() {
                     let exp = g[*out].buffers[ch].to_vec();
                     if c.exact {
                         ensure!(f32s_eq(got, &exp), "GraphNode: call {} output {} differs from processing the inner graph directly", call, ch);
                     } else {
                         for i in 0..LEN {
                             let terms: Vec<f32> = (0..n_in).filter(|&j| ch < c.bufs_in[j].min(c.inner_bufs)).map(|j| in_val(j, ch, i, call)).collect();
-                            ensure!((got[i] - exp[i]).abs() <= 2.0 * tol_for(&terms), "GraphNode: call {} output {} sample {} = {}, direct processing gives {}", call, ch, i, got[i], exp[i]);
+                            // feedback accumulates: allow the rounding of every call so far
+                            ensure!((got[i] - exp[i]).abs() <= 2.0 * (call as f32 + 1.0) * tol_for(&terms) + 1e-4 * (c.inner_kind % 3 == 2) as u8 as f32 * exp[i].abs(), "GraphNode: call {} output {} sample {} = {}, direct processing gives {}", call, ch, i, got[i], exp[i]);
                         }
                     }
                 } else {
@@ -400,15 +433,17 @@ pub fn case_strategy() -> impl Strategy<Value = Case> {
             proptest::collection::vec(prop_oneof![3 => 1usize..=200, 1 => proptest::sample::select(vec![1usize, 63, 64, 65, 128])], 0..=4),
             1usize..=4,
             0usize..=4,
+            prop_oneof![2 => Just(None), 1 => (0usize..300).prop_map(Some)],
+            0u8..3,
         )
-            .prop_map(move |(mut bufs_in, delay_lens, sig_channels, inner_bufs)| {
+            .prop_map(move |(mut bufs_in, delay_lens, sig_channels, inner_bufs, sig_len, inner_kind)| {
                 if kind == Kind::GraphNode {
                     let b0 = bufs_in.first().copied().unwrap_or(0);
                     for b in bufs_in.iter_mut() {
                         *b = b0;
                     }
                 }
-                Case { kind, wrapper: WRAPPERS[w], bufs_in, n_out, calls, exact, delay_lens, sig_channels, inner_bufs, salt: salt % 10_000 }
+                Case { kind, wrapper: WRAPPERS[w], bufs_in, n_out, calls, exact, delay_lens, sig_channels, inner_bufs, salt: salt % 10_000, sig_len, inner_kind }
             })
     })
 }
@@ -420,7 +455,7 @@ pub fn run(ctx: &mut Ctx) {
          inputs are supplied by constant-writer source nodes in a real graph; non-trivial: mismatched channel counts, zero inputs, >= 2 consecutive calls on a stateful node, or a wrapper",
     );
     ctx.assume("Sum / SumBuffers compared with the exact sum on grid contents (input order irrelevant) and within n eps sum|x| otherwise; surplus outputs are pre-filled with a sentinel pattern and must stay untouched where the documentation says so; wrappers must be bit-identical to the bare node; dasp_graph is built against the crates.io 0.11.0 dasp_ring_buffer / dasp_signal / dasp_frame exactly as the repository's lock file resolves them");
-    for c in ["mismatched channel counts", "zero inputs", "consecutive calls on a stateful node", "wrapper"] {
+    for c in ["mismatched channel counts", "zero inputs", "consecutive calls on a stateful node", "wrapper", "signal node over a signal that ends during the run", "nested graph whose output node carries state between calls"] {
         ctx.require_class(c);
     }
     ctx.prop("random-configurations", ctx.pick(40_000, 400_000), case_strategy(), check);
@@ -439,7 +474,13 @@ pub fn run(ctx: &mut Ctx) {
                     continue;
                 }
                 for exact in [true, false] {
-                    cases.push(Case { kind, wrapper, bufs_in: bufs_in.clone(), n_out, calls: 3, exact, delay_lens: vec![64, 5, 100], sig_channels: 2, inner_bufs: 2, salt: 7 });
+                    for variant in 0..3u8 {
+                        if variant > 0 && !matches!(kind, Kind::Signal | Kind::GraphNode) {
+                            continue;
+                        }
+                        cases.push(Case { kind, wrapper, bufs_in: bufs_in.clone(), n_out, calls: 4, exact, delay_lens: vec![64, 5, 100], sig_channels: 2, inner_bufs: 2, salt: 7,
+                            sig_len: [None, Some(100), Some(64)][variant as usize], inner_kind: variant });
+                    }
                 }
             }
         }
